@@ -50,7 +50,7 @@ def schema_load_contract(cname):
     ct = Contract(f"harness.{cname}_load", params={"schema": TObj(cname), "data": TJson}, returns=TObj(obj),
                   modifies=JSON_OBJECTS,  # the compatibility hooks rewrite legacy keys of the parsed JSON objects in place
                   fresh={"LOADED": {"type": TObj(obj), "is": "result"}},
-                  ensures=ens, raises={k: list(v) for k, v in SHAPE_ERRORS.items()}, check_wf=False)
+                  ensures=ens, raises={k: list(v) for k, v in SHAPE_ERRORS.items()}, wf=False, check_wf=False)  # (says nothing about the registry invariant)
     ct.raises_only_id = "C14/raises-only"
     return ct
 
